@@ -17,7 +17,10 @@ Sections:
      attached at the declaring class or below, removal; plus seeded random histories
   E  the same EOperation OBJECT declared again after its eParameters were edited in place (removed and re-added, moved
      to a sub-/supertype or an unrelated class, re-appended while declared): signature and call outcomes follow the
-     CURRENT declaration on instances created before and after (composite ops 'editop' / 'redecl' of metaedit_io)
+     CURRENT declaration on instances created before and after (composite ops 'editop' / 'redecl' of metaedit_io);
+     parameters of a DECLARED operation edited in place: the method follows at once, an attached behaviour stays
+  F  a dynamic package saved to an .ecore file and loaded in a fresh ResourceSet: the methods of the loaded classes have
+     the declared signatures and call outcomes (implementation + oracle only)
 """
 import itertools
 import keyword
@@ -74,6 +77,8 @@ def qualifiers(name, params, via='append'):
         q.append('bulk-add')
     if via.startswith('redecl') and not q:
         q.append('re-declared')
+    if via == 'edit' and not q:
+        q.append('edited-while-declared')
     return sorted(q)
 
 
@@ -487,8 +492,21 @@ class Spec:
             _, c, name, edits = op
             hit = next((d for d in self.decl[c] if d[0] == name), None)
             if hit is not None:
-                self.decl[c][self.decl[c].index(hit)] = (name, mio.apply_param_edits(hit[1], edits))
-                self.ns[c][norm(name)] = ('unknown',)
+                # declared: the generated method follows the edit at once, an attached behaviour stays; while the
+                # parameters have no Python signature (outside the property) there is no generated method ('gone')
+                new = mio.apply_param_edits(hit[1], edits)
+                self.decl[c][self.decl[c].index(hit)] = (name, new)
+                prev = self.ns[c].get(norm(name), ('unknown',))
+                if prev[0] == 'beh':
+                    pass
+                elif prev[0] in ('stub', 'gone'):
+                    self.ns[c][norm(name)] = ('stub', name, new, 'edit') if in_quantifier(name, new) else ('gone',)
+                    if code != 0 and in_quantifier(name, new):
+                        self.out.fail({'property': 'C20', 'culprit': 'edit-operation', 'clause': 'edit-raises', 'qualifiers': []},
+                                      f'{op}: editing the parameters of a declared operation raised (code {code})', case)
+                        self.ns[c][norm(name)] = ('unknown',)
+                else:
+                    self.ns[c][norm(name)] = ('unknown',)
             elif (c, name) in self.dead:
                 self.dead[(c, name)] = mio.apply_param_edits(self.dead[(c, name)], edits)
         elif k == 'redecl':
@@ -517,7 +535,7 @@ class Spec:
                 self.decl[c].remove(hit)
                 self.dead[(c, name)] = hit[1]
                 was = self.ns[c].pop(norm(name), None)
-                if code != 0 and was is not None and was[0] != 'unknown':
+                if code != 0 and was is not None and was[0] not in ('unknown', 'gone'):
                     self.out.fail({'property': 'C20', 'culprit': 'remove-operation', 'clause': 'remove-raises',
                                    'qualifiers': ['keyword-name'] if keyword.iskeyword(name) else []},
                                   f'removing operation {name} raised (outcome code {code})', case)
@@ -528,7 +546,7 @@ class Spec:
             for d in self.decl[c]:
                 self.dead[(c, d[0])] = d[1]
             self.decl[c] = []
-            unknown = any(self.ns[c].get(norm(n), ('unknown',))[0] == 'unknown' for n in names)
+            unknown = any(self.ns[c].get(norm(n), ('unknown',))[0] in ('unknown', 'gone') for n in names)
             for n in names:
                 self.ns[c].pop(norm(n), None)
             if code != 0:
@@ -545,7 +563,7 @@ class Spec:
             self.ns[c][fname] = ('beh', b)
         elif k in ('sig', 'call'):
             e = self.expect(op[1], op[2])
-            if e[0] == 'unknown':
+            if e[0] in ('unknown', 'gone'):
                 return
             if e[0] == 'absent':
                 if code != 5:
@@ -579,7 +597,17 @@ class Spec:
 
 
 def run_history(out, model, intern, history, names, case, stats):
-    r = compare_history(out, model, intern, history, names, case, stats)
+    if mio.has_live_edit(history):
+        # in-place regeneration of a declared operation's method has no counterpart in the model: oracle only
+        r = mio.run_impl(history, names, intern)
+        stats['histories'] += 1
+        stats['ops'] += len(history)
+        stats['oracle_only_histories'] = stats.get('oracle_only_histories', 0) + 1
+        for op, (code, _) in zip(history, r['per_op']):
+            stats['op_kinds'][op[0]] = stats['op_kinds'].get(op[0], 0) + 1
+            stats['outcomes'][code] = stats['outcomes'].get(code, 0) + 1
+    else:
+        r = compare_history(out, model, intern, history, names, case, stats)
     spec = Spec(out, intern)
     for op, res in zip(history, r['per_op']):
         spec.feed(op, res, case)
@@ -749,6 +777,8 @@ def redecl_scenario(name, params, edits, src, dst, mode, beh, via):
     elif mode == 'live':
         h.append(['editop', src, name, edits])
         cur = mio.apply_param_edits(cur, edits)
+        h += [['newinst', src], ['newinst', 3]]                # instances 8, 9: created after the edit
+        probe(h, [src - 1, 2, src + 3, 8, 9], nn, cur)         # the declared operation follows the edit at once
         h.append(['redecl', dst, src, name, via])
         at = dst
     else:
@@ -759,15 +789,40 @@ def redecl_scenario(name, params, edits, src, dst, mode, beh, via):
         cur = mio.apply_param_edits(cur, edits)
         h.append(['redecl', src, dst, name, via])
         at = src
+    n0 = sum(1 for o in h if o[0] == 'newinst')
     h += [['newinst', c] for c in (1, 2, 3, 4)]
-    probe(h, list(range(12)), nn, cur)
+    probe(h, list(range(n0 + 4)), nn, cur)
     # a second round: out again, one more parameter in front, back in at the first class
     h.append(['popop', at, -1, 'pop'])
     e2 = [['insert', 0, [fresh_names(cur, 1)[0], 1, 'int']]]
     h.append(['editop', at, name, e2])
     cur = mio.apply_param_edits(cur, e2)
     h.append(['redecl', src, at, name, 'append'])
+    probe(h, [0, 1, 2, 3, n0, n0 + 1, n0 + 2, n0 + 3], nn, cur)
+    return h
+
+
+def edit_scenario(name, params, edits, pos, beh):
+    """Instances before; declare `name` at pos; [behaviour at pos, or below]; edit the parameters of the DECLARED operation
+    in place; look at once, on instances created before and after the edit; one more edit (a parameter in front); look."""
+    nn = norm(name)
+    h = list(GRAPH) + [['newinst', c] for c in (1, 2, 3, 4)]
+    h.append(['addop', pos, name, params, 'append'])
+    h += [['newinst', c] for c in (1, 2, 3, 4)]
+    if beh is not None:
+        h.append(['attach', beh, nn, 41])
+    probe(h, [pos - 1, 2, 6], nn, params)
+    cur = mio.apply_param_edits(params, edits)
+    h.append(['editop', pos, name, edits])
+    h += [['newinst', c] for c in (1, 2, 3, 4)]
+    probe(h, list(range(12)), nn, cur)
+    e2 = [['insert', 0, [fresh_names(cur, 1)[0], 1, 'int']]]
+    h.append(['editop', pos, name, e2])
+    cur = mio.apply_param_edits(cur, e2)
     probe(h, [0, 1, 2, 3, 8, 9, 10, 11], nn, cur)
+    h.append(['rmop', pos, name])
+    for i in (pos - 1, 2, 10):
+        h.append(['sig', i, nn])
     return h
 
 
@@ -784,6 +839,8 @@ def random_redecl_history(rng, n):
     def emit(op):
         h.append(op)
         t.expand(op)
+        if op[0] == 'editop' and t.find_op(op[1], op[2])[0] == 'live':
+            has_method[(op[1], op[2])] = in_quantifier(op[2], t.find_op(op[1], op[2])[1])     # the method follows the edit
         if op[0] in ('addop', 'redecl'):
             has_method[(op[1], op[3] if op[0] == 'redecl' else op[2])] = in_quantifier(
                 op[2] if op[0] == 'addop' else op[3], t.find_op(op[1], op[3] if op[0] == 'redecl' else op[2])[1])
@@ -879,6 +936,23 @@ def redeclare_scenarios(ctx, out, model=None, intern=None, stats=None):
                                 case = dict(tag, section='E', history=h, names=[norm(name), name])
                                 run_history(out, model, intern, h, case['names'], case, stats)
                                 stats['redeclare_scenarios'] += 1
+    stats.setdefault('edit_scenarios', 0)
+    for name in ('run', 'class'):
+        for r in range(3):
+            for o in range(3):
+                params = shape(r, o)
+                for edits in valid_edits(params):
+                    for pos in (1, 2, 3):
+                        k += 1
+                        if name == 'class' and (k % 3):
+                            continue
+                        if not thorough and (k % 2) != (ctx.seed % 2):
+                            continue
+                        beh = [None, pos, min(pos + 1, 3), None][k % 4]
+                        h = edit_scenario(name, params, edits, pos, beh)
+                        case = dict(tag, section='E-edit', history=h, names=[norm(name), name])
+                        run_history(out, model, intern, h, case['names'], case, stats)
+                        stats['edit_scenarios'] += 1
     for j in range(3000 if thorough else 500):
         h = random_redecl_history(rng, rng.randint(8, 24))
         case = dict(tag, section='E-random', history=h, names=['run', 'class_', 'class', 'go'])
@@ -888,6 +962,130 @@ def redeclare_scenarios(ctx, out, model=None, intern=None, stats=None):
             stats['samples'].append(case)
     if own_model:
         model.close()
+
+
+# ---------------------------------------------------------------- section F: through an .ecore file and back
+RT_KINDS = ['int', 'str', 'bool', 'ref']
+
+
+def visible_decls(decls, c):
+    """name -> (class, params) of the nearest declaration along the super types of c"""
+    out = {}
+    for k in reversed(chain(c)):
+        for dc, name, params, _ in decls:
+            if dc == k:
+                out[name] = (dc, params)
+    return out
+
+
+def check_methods(out, classes, decls, stage, case, stats):
+    import inspect
+    culprit = 'load-ecore' if stage == 'loaded' else 'add-operation'
+    for c in (1, 2, 3, 4):
+        inst = classes[c]()
+        for name, (dc, params) in sorted(visible_decls(decls, c).items()):
+            stats['roundtrip_methods'] = stats.get('roundtrip_methods', 0) + 1
+            nn = norm(name)
+            where = f'{stage} metamodel: operation {name}{params} of class {dc} on an instance of class {c}'
+            sigd = {'property': 'C20', 'culprit': culprit, 'qualifiers': []}
+            m = getattr(inst, nn, None)
+            if m is None or not callable(m):
+                out.fail(dict(sigd, clause='add-gives-method'), f'{where}: no method {nn}', case)
+                continue
+            got = [[p.name, p.default is inspect.Parameter.empty, None if p.default is inspect.Parameter.empty else repr(p.default)]
+                   for p in inspect.signature(m).parameters.values()]
+            want = [[pn, bool(rq), None if rq else mio.default_text(tk)] for pn, rq, tk in params]
+            if got != want:
+                out.fail(dict(sigd, clause='signature'), f'{where}: signature (name, required, default) {got}, declared {want}', case)
+                continue
+            nreq = sum(1 for p in params if p[1])
+            for k in sorted({nreq, len(params), len(params) + 1, max(nreq - 1, 0)}):
+                try:
+                    m(*([1] * k))
+                    res = 'returned'
+                except NotImplementedError:
+                    res = 'NotImplementedError'
+                except TypeError:
+                    res = 'TypeError'
+                except Exception as e:      # noqa: BLE001
+                    res = type(e).__name__
+                exp = 'NotImplementedError' if nreq <= k <= len(params) else 'TypeError'
+                if res != exp:
+                    out.fail(dict(sigd, clause='raises-NotImplementedError' if exp == 'NotImplementedError' else 'arity'),
+                             f'{where}: called with {k} arguments -> {res}, expected {exp}', case)
+
+
+def roundtrip_case(out, decls, case, path, stats, uid):
+    import pyecore.ecore as ec
+    from pyecore.resources import ResourceSet, URI
+    pkg = ec.EPackage(f'p{uid}', nsURI=f'http://verif/c20/{uid}', nsPrefix=f'p{uid}')
+    classes = {1: ec.EClass('K1')}
+    classes[2] = ec.EClass('K2', superclass=classes[1])
+    classes[3] = ec.EClass('K3', superclass=classes[2])
+    classes[4] = ec.EClass('K4', superclass=classes[1])
+    pkg.eClassifiers.extend(classes.values())
+    types = {'int': ec.EInt, 'str': ec.EString, 'bool': ec.EBoolean, 'ref': classes[1]}
+    for c, name, params, how in decls:
+        mk = [ec.EParameter(pn, types[tk], required=bool(rq)) for pn, rq, tk in params]
+        if how == 'later':                  # the operation is declared first, its parameters arrive one by one
+            o = ec.EOperation(name)
+            classes[c].eOperations.append(o)
+            for p in mk:
+                o.eParameters.append(p)
+        elif how == 'extend':
+            classes[c].eOperations.extend([ec.EOperation(name, params=mk)])
+        else:
+            classes[c].eOperations.append(ec.EOperation(name, params=mk))
+    check_methods(out, classes, decls, 'built', case, stats)
+    rset = ResourceSet()
+    res = rset.create_resource(URI(path))
+    res.append(pkg)
+    res.save()
+    rset2 = ResourceSet()
+    pkg2 = rset2.get_resource(URI(path)).contents[0]
+    loaded = {c: pkg2.getEClassifier(f'K{c}') for c in classes}
+    for c, name, params, _ in decls:        # the declaration itself must have survived (else it is not C20's business)
+        o = next((x for x in loaded[c].eOperations if x.name == name), None)
+        if o is None or [[p.name, 1 if p.required else 0] for p in o.eParameters] != [[pn, 1 if rq else 0] for pn, rq, _ in params]:
+            stats['roundtrip_declaration_lost'] = stats.get('roundtrip_declaration_lost', 0) + 1
+            return
+    check_methods(out, loaded, decls, 'loaded', case, stats)
+
+
+def roundtrip_scenarios(ctx, out, stats=None):
+    """A dynamic package with operations at every level of the graph is saved to an .ecore file and loaded in a fresh
+    ResourceSet: every operation of every class, seen from an instance of every class, has the declared signature and
+    call outcomes -- in the package as built and in the loaded one.  Own PRNG stream 'C20:roundtrip'."""
+    import os
+    import shutil
+    import tempfile
+    common.use_repo()
+    stats = stats if stats is not None else {}
+    rng = common.rng_for(ctx.seed, 'C20:roundtrip')
+    tag = {'scenario': 'roundtrip', 'seed': ctx.seed, 'tier': ctx.tier, 'section': 'F'}
+    shapes = [shape(r, o, RT_KINDS) for r in range(4) for o in range(4)]
+    shapes = [[[pn, rq, tk if tk in RT_KINDS else 'int'] for pn, rq, tk in ps] for ps in shapes]
+    base = os.path.join(common.VERIF, 'build', 'scratch')
+    os.makedirs(base, exist_ok=True)
+    tmp = tempfile.mkdtemp(prefix='c20_roundtrip_', dir=base)
+    try:
+        cases = []
+        # every shape once, at the top, declared in the three ways
+        for j, ps in enumerate(shapes):
+            cases.append([[1 + j % 3, ['run', 'class', 'go'][j % 3], ps, ['append', 'later', 'extend'][j % 3]]])
+        for _ in range(300 if ctx.tier == 'thorough' else 40):
+            decls = []
+            for c in (1, 2, 3, 4):
+                for nm in ('run', 'class', 'go'):
+                    if rng.random() < 0.45:
+                        decls.append([c, nm, rng.choice(shapes), rng.choice(['append', 'later', 'extend'])])
+            cases.append(decls)
+        for uid, decls in enumerate(cases):
+            case = dict(tag, history=decls)
+            roundtrip_case(out, decls, case, os.path.join(tmp, f'm{uid}.ecore'), stats, uid)
+            stats['roundtrips_through_ecore'] = stats.get('roundtrips_through_ecore', 0) + 1
+    finally:
+        shutil.rmtree(tmp, ignore_errors=True)
 
 
 # ---------------------------------------------------------------- entry points
@@ -903,6 +1101,7 @@ def run(ctx, out):
     static_hierarchy_cases(out, model, stats, common.rng_for(ctx.seed, 'C20:hierarchy'), 60 if ctx.tier != 'thorough' else 1500)
     section_d(out, model, intern, stats, ctx)
     redeclare_scenarios(ctx, out, model, intern, stats)
+    roundtrip_scenarios(ctx, out, stats)
     model.close()
     if mio.flag_installed():
         out.diff('Metasubinstance.mro is replaced at the end of the C20 run', {'global': True})
@@ -910,7 +1109,8 @@ def run(ctx, out):
     out.coverage.update({
         'evaluations': n + stats['kw'],
         'distinct_nontrivial': stats['decls'] + stats['static_bodies'] + stats['scenarios'] + stats['random_histories']
-                               + stats['redeclare_scenarios'] + stats['redeclare_random'],
+                               + stats['redeclare_scenarios'] + stats['redeclare_random'] + stats.get('edit_scenarios', 0)
+                               + stats.get('roundtrips_through_ecore', 0),
         'rule': 'a case = one declaration on a fresh class (B), one generated static class body (C), or one history on the '
                 '3-level graph (D); B is exhaustive over <=3 required + <=3 optional parameters x {plain, keyword, None} names '
                 'plus every ill-ordered flag vector of length <=4 and the listed odd names; D declares each of them at every '
@@ -927,6 +1127,10 @@ def run(ctx, out):
         'history_ops_by_kind': stats['op_kinds'], 'history_outcomes_by_code': stats['outcomes'],
         'scenarios': stats['scenarios'], 'random_histories': stats['random_histories'],
         'redeclare_scenarios': stats['redeclare_scenarios'], 'redeclare_random_histories': stats['redeclare_random'],
+        'edit_while_declared_scenarios': stats.get('edit_scenarios', 0),
+        'roundtrips_through_ecore': stats.get('roundtrips_through_ecore', 0), 'methods_checked_in_roundtrips': stats.get('roundtrip_methods', 0),
+        'roundtrips_whose_declaration_did_not_survive_the_file': stats.get('roundtrip_declaration_lost', 0),
+        'histories_judged_by_the_oracle_only_(in_place_edits_of_declared_operations)': stats.get('oracle_only_histories', 0),
         'samples': stats['samples'][:6],
     })
     out.assumptions += [
@@ -938,14 +1142,17 @@ def run(ctx, out):
         'EDataType with default, an EEnum',
         'varargs / keyword-only parameters of static methods are not generated (getfullargspec().args ignores them)',
         'RestrictedPython compiles the generated source: its naming policy is part of the model (Operations.restricted_name)',
-        'parameters edited while the operation is declared: the method is not judged until the operation is declared again '
-        '(pyecore regenerates a method only when an operation enters eOperations; the property speaks of adding and removing)',
+        'parameters edited while the operation is declared: the generated method follows at once (fix e6fe3b2), an attached '
+        'behaviour stays; the Coq model has no in-place edits, such histories are judged by the oracle only; while the edited '
+        'parameter list is outside the property (no Python signature) nothing is judged',
     ]
 
 
 def replay(ctx, rep):
     common.use_repo()
     case = rep['case']
+    if case.get('scenario') == 'roundtrip':
+        return common.scenario_replay(ctx, rep, {'roundtrip': roundtrip_scenarios})
     intern = mio.Interner()
     out = common.Outcome('C20', 'quick', 0)
     if case.get('section') == 'B':
